@@ -98,6 +98,7 @@ def H_history(ctx, cfg):
     r = fa.FileAccessor(base, flat=rf, gzip=rg)
     store = {}
     hist = []
+    ctx.input("history", hist)      # filled as the history unfolds
     for step in range(cfg["k"]):
         op = _pick(ctx, f"op{step}", 5)
         tgt = _pick(ctx, f"tgt{step}", 2)
@@ -158,7 +159,6 @@ def H_history(ctx, cfg):
             name, _ = NAMES[tgt]
             hist.append(["file_exists", tgt])
             ctx.prove(bool(r.file_exists(name)) == (("file", name) in store), "file_exists-iff-stored")
-    ctx.input("history", hist)
     ctx.sample(dict(writer=cfg["writer"], reader=cfg["reader"], history=hist))
     # final read-back of everything through the reader configuration
     for key, data in store.items():
